@@ -25,6 +25,7 @@ func init() {
 			ruleExprListsFresh(c, "C01.3")
 			ruleWhoMayCall(c, "C01.7", "(*InjectorParam).Ref", "reference counts and channel flags are decided while the graph is built (Build), never while code is emitted", "(*Graph).Build")
 			ruleWhoMayCall(c, "C01.7", "(*InjectorProviderCallStmt).channelsWait", "a wait is emitted only by a provider statement for its own arguments", "(*InjectorProviderCallStmt).Stmt")
+			ruleSyncJoinsItsInputs(c, "C01.10")
 			coRun(c, "C01.8", coRace)
 		},
 		explanation: "GS (all generator inputs, emission discipline): inside every producer statement the wait is appended before the provider call and the close after it; done-channels are declared, awaited and closed under one predicate (truth tables over the guarding atoms, exhaustively enumerated); IsWait=false implies same pool or already-provided (exhaustive table over pool indices in {-1,0,1}); InjectorParam.Ref keeps the channel flag sticky; shared variables are assigned with = whenever the injector predeclares them; each dependency edge is recorded in both directions in one block, the topological counter is len(reverseEdges); every built pool is marked processed; argument/wait collection loops have no early exit. " +
